@@ -105,3 +105,79 @@ Theorem C08_magic_from_source :
   Ack.ACK_MAGIC = src_ack_magic /\ EVENT_MAGIC = src_event_magic /\ EVENT_COMMAND_ID = src_event_command_id.
 Proof. exact (conj ack_magic_src event_consts_src). Qed.
 Print Assumptions C08_magic_from_source.
+
+(* TIE TO THE SOURCE CODE.  gen/AckParseSrc.v is regenerated from device/src/u3v/protocol/{ack,event}.rs on every run by
+   tools/translate_ackparse.py: AckPacket::parse / AckCcd::parse / Status::parse (+ the two table functions with their
+   debug_assert!s) / ScdKind::parse, the five ParseScd::parse reached through scd_as, EventPacket::parse / EventCcd::parse /
+   EventScd::parse with its loop and read_and_seek, as ordered cursor reads (model/CurOps.v), bounds checks, slice
+   indexing (Panic outside the slice) and debug-build integer arithmetic (lib/RustInt.v).  For EVERY byte list the
+   translated decoders return what the models above return: the same fields, the same error class, a panic in the same
+   cases (none).  ack_of_src / events_of_src / status_num / scd_kind_num (proofs/P_C08s.v) read the translated records
+   and enums as the models' numbers. *)
+From Cam Require Import CurOps AckParseSrc P_C08s.
+
+Theorem C08_ack_parse_from_source : forall bs,
+  omap ack_of_src (src_AckPacket_parse bs) = parse_ack bs /\
+  (forall s, src_Status_is_fatal s = Ok (status_is_fatal (Status_code s))) /\
+  (forall s, src_Status_is_success s = status_is_success (status_num (Status_kind s))).
+Proof. exact (fun bs => conj (ack_parse_src bs) (conj is_fatal_src is_success_src)). Qed.
+Print Assumptions C08_ack_parse_from_source.
+
+(* the typed views through the translated AckPacket::scd_as, for every acknowledge whose SCD length is a u16 *)
+Theorem C08_views_from_source : forall p, 0 <= AckCcd_scd_len (AckPacket_ccd p) < 65536 ->
+  omap ReadMem_data (src_AckPacket_scd_as src_ReadMem_impl_ParseScd p) = view_data (ack_of_src p) /\
+  omap WriteMem_length (src_AckPacket_scd_as src_WriteMem_impl_ParseScd p) = view_write (ack_of_src p) /\
+  omap Pending_timeout (src_AckPacket_scd_as src_Pending_impl_ParseScd p) = view_pending (ack_of_src p) /\
+  omap ReadMemStacked_data (src_AckPacket_scd_as src_ReadMemStacked_impl_ParseScd p) = view_data (ack_of_src p) /\
+  omap WriteMemStacked_lengths (src_AckPacket_scd_as src_WriteMemStacked_impl_ParseScd p) = view_write_stacked (ack_of_src p).
+Proof. exact views_src. Qed.
+Print Assumptions C08_views_from_source.
+
+(* events; 2^63: no Rust slice is longer than isize::MAX bytes (beyond 2^64 - 65535 the usize sum in read_and_seek
+   would overflow, which the model does not have) *)
+Theorem C08_event_parse_from_source : forall bs, bytes_ok bs -> zlen bs < 2 ^ 63 ->
+  omap events_of_src (src_EventPacket_parse bs) = parse_event bs.
+Proof. exact event_parse_src. Qed.
+Print Assumptions C08_event_parse_from_source.
+
+(* the property stated on the translated code itself: no byte list makes a translated decoder or view panic, and the
+   fuel the translator gives the two `while` loops is never used up *)
+Theorem C08_total_of_source :
+  (forall bs, bytes_ok bs -> src_AckPacket_parse bs <> Panic) /\
+  (forall p, 0 <= AckCcd_scd_len (AckPacket_ccd p) < 65536 ->
+     src_AckPacket_scd_as src_ReadMem_impl_ParseScd p <> Panic /\
+     src_AckPacket_scd_as src_WriteMem_impl_ParseScd p <> Panic /\
+     src_AckPacket_scd_as src_Pending_impl_ParseScd p <> Panic /\
+     src_AckPacket_scd_as src_ReadMemStacked_impl_ParseScd p <> Panic /\
+     src_AckPacket_scd_as src_WriteMemStacked_impl_ParseScd p <> Panic /\
+     src_AckPacket_scd_as src_WriteMemStacked_impl_ParseScd p <> Err E_FUEL) /\
+  (forall bs, bytes_ok bs -> zlen bs < 2 ^ 63 ->
+     src_EventPacket_parse bs <> Panic /\ src_EventPacket_parse bs <> Err E_FUEL).
+Proof. exact src_total. Qed.
+Print Assumptions C08_total_of_source.
+
+(* ... and every acknowledge built by the layout of spec/GenCPLayout.v is accepted by the translated decoder with the
+   fields it was built from (code, namespace, fatal bit, kind, request id, SCD length, SCD, ReadMem view) *)
+Theorem C08_conforming_of_source : forall code st id k rid scd,
+  0 <= code < 65536 -> spec_status code = Some st ->
+  0 <= id < 65536 -> spec_ack_kind id = Some k ->
+  0 <= rid < 65536 -> zlen scd < 65536 ->
+  exists p, src_AckPacket_parse (enc_ack code id rid scd) = Ok p /\
+    Status_code (src_AckPacket_status p) = code /\ status_num (Status_kind (src_AckPacket_status p)) = st /\
+    src_Status_is_fatal (src_AckPacket_status p) = Ok (spec_fatal code) /\
+    scd_kind_num (src_AckPacket_scd_kind p) = k /\ src_AckPacket_request_id p = rid /\
+    AckCcd_scd_len (AckPacket_ccd p) = zlen scd /\ AckPacket_raw_scd p = scd /\
+    omap ReadMem_data (src_AckPacket_scd_as src_ReadMem_impl_ParseScd p) = Ok scd.
+Proof. exact src_accepts_conforming. Qed.
+Print Assumptions C08_conforming_of_source.
+
+(* the constants and match tables inside the translated functions are those tools/translate_proto.py extracts *)
+Theorem C08_tables_cross_check :
+  src_AckPacket_PREFIX_MAGIC = src_ack_magic /\ src_EventPacket_PREFIX_MAGIC = src_event_magic /\
+  src_EventCcd_EVENT_COMMAND_ID = src_event_command_id /\
+  (forall code, Z.land (Z.shiftr code 13) 3 = 0 ->
+     omap (fun s => status_num (Status_kind s)) (src_Status_parse_gencp_status code) = table_fn src_gencp_status 0 code) /\
+  (forall code, Z.land (Z.shiftr code 13) 3 = 1 ->
+     omap (fun s => status_num (Status_kind s)) (src_Status_parse_usb_status code) = table_fn src_usb_status 100 code).
+Proof. exact tables_cross. Qed.
+Print Assumptions C08_tables_cross_check.
